@@ -88,8 +88,125 @@ fn fe_prog(steps: &[&str]) -> Vec<String> {
     out
 }
 
+/// input bytes of call `i` of a bulk run (mirrored by cxv/bulk.py): random, or runs of 00 / ff / random bytes (limb-boundary patterns)
+pub fn bulk_input(seed: u64, i: u64, len: usize) -> Vec<u8> {
+    let r = prng_bytes((seed << 32).wrapping_add(i), 2 * len + 8);
+    let mode = r[2 * len] & 3;
+    if mode < 2 {
+        return r[..len].to_vec();
+    }
+    let mut out: Vec<u8> = Vec::with_capacity(len + 8);
+    let mut j = 0;
+    while out.len() < len {
+        let c = r[len + j];
+        j += 1;
+        let runlen = ((c & 7) + 1) as usize;
+        let kind = (c >> 3) & 3;
+        for _ in 0..runlen {
+            let b = match kind {
+                0 => 0x00,
+                1 => 0xff,
+                2 => r[out.len() % len],
+                _ => {
+                    if mode == 3 {
+                        0x00
+                    } else {
+                        r[out.len() % len]
+                    }
+                }
+            };
+            out.push(b);
+        }
+    }
+    out.truncate(len);
+    out
+}
+
+fn bulk_one(kind: &str, inp: &[u8]) -> Vec<u8> {
+    match kind {
+        "x25519" => curve25519(&a32(&inp[..32]), &a32(&inp[32..64])).to_vec(),
+        "x25519_base" => curve25519_base(&a32(&inp[..32])).to_vec(),
+        "ed_sign" => {
+            // keypair, signature over a message of 0..63 bytes, and the verdict of verifying it
+            let (kp, pk) = ed25519::keypair(&a32(&inp[..32]));
+            let mlen = (inp[32] & 63) as usize;
+            let sig = ed25519::signature(&inp[33..33 + mlen], &kp);
+            let ok = ed25519::verify(&inp[33..33 + mlen], &pk, &sig);
+            let mut o = pk.to_vec();
+            o.extend_from_slice(&sig);
+            o.push(ok as u8);
+            o
+        }
+        "sc_reduce" => Scalar::reduce_from_wide_bytes(&a64(&inp[..64])).to_bytes().to_vec(),
+        "fe_mix" => {
+            let x = Fe::from_bytes(&a32(&inp[..32]));
+            let y = Fe::from_bytes(&a32(&inp[32..64]));
+            let xy = &x * &y;
+            let xx = x.square();
+            let t = &(&xy + &xx) - &y; // x*y + x^2 - y
+            let u = &(&t * &x) - &(&xx + &xx); // t*x - 2x^2
+            let v = u.square_and_double();
+            let mut o = t.to_bytes().to_vec();
+            o.extend_from_slice(&u.to_bytes());
+            o.extend_from_slice(&v.to_bytes());
+            o.push(t.is_negative() as u8 | ((u.is_nonzero() as u8) << 1) | (((t == u) as u8) << 2));
+            o
+        }
+        "fe_inv" => {
+            let x = Fe::from_bytes(&a32(&inp[..32]));
+            let mut o = x.invert().to_bytes().to_vec();
+            o.extend_from_slice(&x.pow25523().to_bytes());
+            o
+        }
+        "ge_dsm" => {
+            // a*A + b*B with A = ka*B; all three scalars below 2^255 (the documented operand range)
+            let m = |v: &[u8]| {
+                let mut x = a32(v);
+                x[31] &= 0x7f;
+                Scalar::from_bytes(&x)
+            };
+            let pa = Ge::scalarmult_base(&m(&inp[64..96]));
+            GePartial::double_scalarmult_vartime(&m(&inp[..32]), pa, &m(&inp[32..64])).to_bytes().to_vec()
+        }
+        _ => panic!("bulk kind {}", kind),
+    }
+}
+
+pub fn bulk_len(kind: &str) -> usize {
+    match kind {
+        "x25519" | "sc_reduce" | "fe_mix" => 64,
+        "x25519_base" | "fe_inv" => 32,
+        "ed_sign" => 96,
+        "ge_dsm" => 96,
+        _ => panic!("bulk kind {}", kind),
+    }
+}
+
 pub fn run(op: &str, a: &[&str]) -> Vec<String> {
     match op {
+        // bulk <kind> <seed> <start> <count> <block> : calls start..start+count on derived inputs; one FNV-1a-64 hash of the
+        // concatenated outputs per block of `block` calls, and the raw output of the first call of each block ("i:hex")
+        "bulk" => {
+            let kind = a[0];
+            let (seed, start, count, block) = (u64p(a[1]), u64p(a[2]), u64p(a[3]), u64p(a[4]).max(1));
+            let len = bulk_len(kind);
+            let mut out = Vec::new();
+            let mut h: u64 = 0xcbf29ce484222325;
+            for i in start..start + count {
+                let o = bulk_one(kind, &bulk_input(seed, i, len));
+                for b in &o {
+                    h = (h ^ (*b as u64)).wrapping_mul(0x100000001b3);
+                }
+                if (i - start) % block == 0 {
+                    out.push(format!("{}:{}", i, hex(&o)));
+                }
+                if (i - start) % block == block - 1 || i == start + count - 1 {
+                    out.push(format!("h{:016x}", h));
+                    h = 0xcbf29ce484222325;
+                }
+            }
+            out
+        }
         "x25519" => vec![hex(&curve25519(&a32(&expand(a[0])), &a32(&expand(a[1]))))],
         "x25519_base" => vec![hex(&curve25519_base(&a32(&expand(a[0]))))],
         "x_dh" => {
